@@ -12,6 +12,7 @@ import Frrs.Identity
 import Frrs.Commit
 import Frrs.Filter
 import Frrs.Oracle
+import Frrs.Sanity
 namespace Frrs.Ops
 open Frrs Frrs.Wire
 
@@ -244,6 +245,22 @@ def dispatch (op : String) (args : List String) : Option String :=
       pure (if src.failed.isSome then "src-failed" else if !renameOk o src then "rename-not-ok"
             else if refRenameCollides x then "ref-collision" else "ok")
   | "compat", [n, r] => do pure (encBool (compat (← decBytes n) (← decBytes r)))
+  -- sanity.rs
+  | "freshly", [r, p, l] => do pure (encBool (freshlyPacked (← r.toNat?) (← p.toNat?) (← l.toNat?)))
+  | "unpushed", [bare, locals, origins] => do
+      let f : RepoFacts := { bare := ← decBool bare, localBranches := ← decPairs locals, originBranches := ← decPairs origins }
+      pure (encList ((unpushedBranches f).foldl (fun acc x => bsetInsert x acc) []))   -- sorted, as the harness sorts
+  | "preflight", [force, facts] => do
+      let g (k : String) (d : String) : String := (kv facts k).getD d
+      let b (k : String) : Bool := g k "0" == "1"
+      let f : RepoFacts := {
+        bare := b "bare", stagedDirty := b "staged", unstagedDirty := b "unstaged", untracked := b "untracked",
+        gitDirOk := g "gitdirok" "1" == "1", refConflict := b "refconflict",
+        maxReflogEntries := (g "reflogmax" "1").toNat!, localBranches := ← decPairs (g "locals" "-"),
+        originBranches := ← decPairs (g "origins" "-"), packs := (g "packs" "1").toNat!, loose := (g "loose" "0").toNat!,
+        replaceRefs := (g "replace" "0").toNat!, remotes := ← decList (g "remotes" "-"), stash := b "stash",
+        worktrees := (g "worktrees" "1").toNat! }
+      pure (match preflightDecision (← decBool force) true f with | none => "accept" | some e => e.name)
   | "import", [stream] => do
       let s := importBytes (← decBytes stream)
       pure (match s.failed with | some w => "failed: " ++ w | none => "ok commits=" ++ toString s.nCommits ++ " refs=" ++ toString (s.refs.filter (·.2.isSome)).length)
